@@ -21,19 +21,36 @@ int carquet_gzip_decompress(
         return CARQUET_ERROR_INVALID_ARGUMENT;
     }
 
+    /* zlib counts available bytes in a uInt: hand both buffers over in pieces
+     * of at most UINT_MAX bytes (as zlib's own uncompress2() does) */
+    const uInt max_chunk = (uInt)-1;
+    size_t in_left = src_size;
+    size_t out_left = dst_capacity;
+
     z_stream strm = {0};
     strm.next_in = (Bytef*)src;
-    strm.avail_in = (uInt)src_size;
+    strm.avail_in = 0;
     strm.next_out = (Bytef*)dst;
-    strm.avail_out = (uInt)dst_capacity;
+    strm.avail_out = 0;
 
     /* 15 + 16 = gzip format (RFC 1952) */
     if (inflateInit2(&strm, 15 + 16) != Z_OK) {
         return CARQUET_ERROR_INVALID_COMPRESSED_DATA;
     }
 
-    int ret = inflate(&strm, Z_FINISH);
-    size_t output_size = strm.total_out;
+    int ret;
+    do {
+        if (strm.avail_out == 0) {
+            strm.avail_out = out_left > max_chunk ? max_chunk : (uInt)out_left;
+            out_left -= strm.avail_out;
+        }
+        if (strm.avail_in == 0) {
+            strm.avail_in = in_left > max_chunk ? max_chunk : (uInt)in_left;
+            in_left -= strm.avail_in;
+        }
+        ret = inflate(&strm, Z_NO_FLUSH);
+    } while (ret == Z_OK);
+    size_t output_size = (size_t)(strm.next_out - (Bytef*)dst);
     inflateEnd(&strm);
 
     if (ret != Z_STREAM_END) {
@@ -59,19 +76,36 @@ int carquet_gzip_compress(
     if (level < 1) level = 1;
     if (level > 9) level = 9;
 
+    /* zlib counts available bytes in a uInt: hand both buffers over in pieces
+     * of at most UINT_MAX bytes (as zlib's own compress2() does) */
+    const uInt max_chunk = (uInt)-1;
+    size_t in_left = src_size;
+    size_t out_left = dst_capacity;
+
     z_stream strm = {0};
     strm.next_in = (Bytef*)src;
-    strm.avail_in = (uInt)src_size;
+    strm.avail_in = 0;
     strm.next_out = (Bytef*)dst;
-    strm.avail_out = (uInt)dst_capacity;
+    strm.avail_out = 0;
 
     /* 15 + 16 = gzip format (RFC 1952) */
     if (deflateInit2(&strm, level, Z_DEFLATED, 15 + 16, 8, Z_DEFAULT_STRATEGY) != Z_OK) {
         return CARQUET_ERROR_COMPRESSION;
     }
 
-    int ret = deflate(&strm, Z_FINISH);
-    size_t output_size = strm.total_out;
+    int ret;
+    do {
+        if (strm.avail_out == 0) {
+            strm.avail_out = out_left > max_chunk ? max_chunk : (uInt)out_left;
+            out_left -= strm.avail_out;
+        }
+        if (strm.avail_in == 0) {
+            strm.avail_in = in_left > max_chunk ? max_chunk : (uInt)in_left;
+            in_left -= strm.avail_in;
+        }
+        ret = deflate(&strm, in_left ? Z_NO_FLUSH : Z_FINISH);
+    } while (ret == Z_OK);
+    size_t output_size = (size_t)(strm.next_out - (Bytef*)dst);
     deflateEnd(&strm);
 
     if (ret != Z_STREAM_END) {
